@@ -57,7 +57,37 @@ def async_counter_step(p: int, c: int, command: bool):
     cover("first-command", both(command, c == 191))
 
 
+@harness(prop="C16", target="geckolib.driver.async_udp_protocol:GeckoAsyncUdpProtocol.__init__",
+         name="async_connections_count_independently_from_the_start")
+def async_connections_count_independently_from_the_start():
+    """observed through the public call only (no assumption on how the counters are stored): every connection
+    starts its two cycles at 1 and 192, and drawing on one connection never moves another one's counters"""
+    a = GeckoAsyncUdpProtocol(None, None)
+    ensures("first-request-number-is-1", a.get_and_increment_sequence_counter(False) == 1)
+    ensures("first-command-number-is-192", a.get_and_increment_sequence_counter(True) == 192)
+    ensures("second-request-number-is-2", a.get_and_increment_sequence_counter(False) == 2)
+    b = GeckoAsyncUdpProtocol(None, None)
+    ensures("a-new-connection-starts-again-at-1", b.get_and_increment_sequence_counter(False) == 1)
+    ensures("a-new-connection-starts-again-at-192", b.get_and_increment_sequence_counter(True) == 192)
+    ensures("the-first-connection-is-unaffected", both(a.get_and_increment_sequence_counter(False) == 3,
+                                                      a.get_and_increment_sequence_counter(True) == 193))
+
+
 # --------------------------------------------------------------------------- threaded
+@harness(prop="C16", target="geckolib.driver.udp_socket:GeckoUdpSocket.__init__",
+         name="sync_connections_count_independently_from_the_start")
+def sync_connections_count_independently_from_the_start():
+    a = GeckoUdpSocket()
+    ensures("first-request-number-is-1", a.get_and_increment_sequence_counter(False) == 1)
+    ensures("first-command-number-is-192", a.get_and_increment_sequence_counter(True) == 192)
+    ensures("second-request-number-is-2", a.get_and_increment_sequence_counter(False) == 2)
+    b = GeckoUdpSocket()
+    ensures("a-new-connection-starts-again-at-1", b.get_and_increment_sequence_counter(False) == 1)
+    ensures("a-new-connection-starts-again-at-192", b.get_and_increment_sequence_counter(True) == 192)
+    ensures("the-first-connection-is-unaffected", both(a.get_and_increment_sequence_counter(False) == 3,
+                                                      a.get_and_increment_sequence_counter(True) == 193))
+
+
 @harness(prop="C16", target="geckolib.driver.udp_socket:GeckoUdpSocket.__init__")
 def sync_init_establishes_invariant():
     sock = GeckoUdpSocket()
